@@ -1,1 +1,505 @@
-fn main() {}
+//! C11 — Concurrent store operations behave as if executed one at a time.
+//!
+//! * `lin`      2–8 scripted threads of put/get/delete/exists/scan on ≤ 3 contended keys per key
+//!              class run under the deterministic scheduler (yield points inside the
+//!              embedding-class put/get/delete and at operation boundaries); the recorded history
+//!              must be linearizable against a sequential map (WGL search, per key when the
+//!              history has no scan).
+//! * `durable`  scripted threads of put_durable/delete_durable with a yield point between "logged"
+//!              and "applied"; at quiescence recovering from a copy of the log must give the
+//!              in-memory state (durable order = memory order).
+//! * `stress`   real threads, history stamped from one atomic counter, same checker.
+
+use nv_engine::{main_for, sched, CaseCtx, CustomPart, Fail, PropDef, PropPart, Tier, Violation};
+use proptest::prelude::*;
+use serde::{Deserialize, Serialize};
+use std::collections::{BTreeMap, BTreeSet, HashSet};
+use std::sync::atomic::{AtomicU64, Ordering};
+use std::sync::{Arc, Mutex};
+use std::time::Duration;
+use tensor_store::wal::WalConfig;
+use tensor_store::{ScalarValue, TensorData, TensorStore, TensorValue};
+
+const CLASSES: [&str; 5] = ["plain", "emb:", "node:", "table:", "_cache:"];
+
+fn key_name(class: u8, k: u8) -> String {
+    let c = CLASSES[class as usize % CLASSES.len()];
+    if c == "plain" {
+        format!("k{k}")
+    } else {
+        format!("{c}{k}")
+    }
+}
+
+/// Every written value is unique (its tag); for embedding keys every vector component and a
+/// sibling scalar field carry the tag, so a mixture of two writes is recognisable.
+fn value(key: &str, tag: u32) -> TensorData {
+    let mut d = TensorData::new();
+    d.set("tag", TensorValue::Scalar(ScalarValue::Int(i64::from(tag))));
+    if key.starts_with("emb:") {
+        d.set("_embedding", TensorValue::Vector(vec![tag as f32; 384]));
+    }
+    d
+}
+
+/// Decode a read value into its tag; `Err` describes a value nobody wrote.
+fn read_tag(key: &str, d: &TensorData) -> Result<u32, String> {
+    let t = match d.get("tag") {
+        Some(TensorValue::Scalar(ScalarValue::Int(t))) => *t as u32,
+        other => return Err(format!("field 'tag' is {other:?}")),
+    };
+    if key.starts_with("emb:") {
+        match d.get("_embedding") {
+            Some(TensorValue::Vector(v)) => {
+                if v.len() != 384 || v.iter().any(|x| *x != v[0]) {
+                    return Err(format!("vector of length {} is not uniform", v.len()));
+                }
+                if v[0] != t as f32 {
+                    return Err(format!("scalar field says write {t} but the vector is from write {}", v[0]));
+                }
+            },
+            other => return Err(format!("scalar field says write {t} but '_embedding' is {:?}", other.map(|_| "not a vector"))),
+        }
+    }
+    Ok(t)
+}
+
+#[derive(Clone, Debug, Serialize, Deserialize)]
+enum Op {
+    Put(u8),
+    Get(u8),
+    Delete(u8),
+    Exists(u8),
+    Scan,
+}
+
+#[derive(Clone, Debug, Serialize, Deserialize)]
+struct Case {
+    class: u8,
+    keys: u8,
+    scripts: Vec<Vec<Op>>,
+    schedule: Vec<u16>,
+}
+
+fn case_strategy(t: Tier, with_reads: bool) -> impl Strategy<Value = Case> {
+    let max_threads = t.pick(5usize, 8usize);
+    (prop_oneof![3 => Just(1u8), 1 => Just(0u8), 1 => Just(2u8), 1 => Just(3u8), 1 => Just(4u8)], 1u8..=3).prop_flat_map(move |(class, keys)| {
+        let op = if with_reads {
+            prop_oneof![
+                5 => (0..keys).prop_map(Op::Put),
+                5 => (0..keys).prop_map(Op::Get),
+                2 => (0..keys).prop_map(Op::Delete),
+                1 => (0..keys).prop_map(Op::Exists),
+                1 => Just(Op::Scan),
+            ]
+            .boxed()
+        } else {
+            prop_oneof![4 => (0..keys).prop_map(Op::Put), 1 => (0..keys).prop_map(Op::Delete)].boxed()
+        };
+        (
+            Just(class),
+            Just(keys),
+            prop::collection::vec(prop::collection::vec(op, 1..=5), 2..=max_threads),
+            prop::collection::vec(any::<u16>(), 0..80),
+        )
+    })
+    .prop_map(|(class, keys, scripts, schedule)| Case { class, keys, scripts, schedule })
+}
+
+// ------------------------------------------------------------------ history + checker
+
+#[derive(Clone, Debug, PartialEq)]
+enum Res {
+    Done,
+    Value(Option<u32>),
+    Torn(String),
+    DeleteOk(bool),
+    /// diagnosis only: a delete whose success flag is ignored
+    DeleteAny,
+    Bool(bool),
+    Keys(BTreeSet<u8>),
+}
+
+#[derive(Clone, Debug)]
+struct Ev {
+    thread: usize,
+    op: Op,
+    tag: u32,
+    inv: u64,
+    resp: u64,
+    res: Res,
+}
+
+type State = Vec<Option<u32>>;
+
+fn step(state: &State, e: &Ev) -> Option<State> {
+    match (&e.op, &e.res) {
+        (Op::Put(k), Res::Done) => {
+            let mut s = state.clone();
+            s[*k as usize] = Some(e.tag);
+            Some(s)
+        },
+        (Op::Get(k), Res::Value(v)) => (state[*k as usize] == *v).then(|| state.clone()),
+        (Op::Get(_), Res::Torn(_)) => None,
+        (Op::Delete(k), Res::DeleteOk(ok)) => {
+            if *ok != state[*k as usize].is_some() {
+                return None;
+            }
+            let mut s = state.clone();
+            s[*k as usize] = None;
+            Some(s)
+        },
+        (Op::Delete(k), Res::DeleteAny) => {
+            let mut s = state.clone();
+            s[*k as usize] = None;
+            Some(s)
+        },
+        (Op::Exists(k), Res::Bool(b)) => (*b == state[*k as usize].is_some()).then(|| state.clone()),
+        (Op::Scan, Res::Keys(ks)) => {
+            let live: BTreeSet<u8> = state.iter().enumerate().filter(|(_, v)| v.is_some()).map(|(i, _)| i as u8).collect();
+            (live == *ks).then(|| state.clone())
+        },
+        _ => None,
+    }
+}
+
+/// WGL-style search: is there a total order consistent with real time in which every result is
+/// what a sequential map would return?
+fn linearizable(evs: &[Ev], init: &State) -> bool {
+    fn rec(evs: &[Ev], done: u64, state: &State, memo: &mut HashSet<(u64, State)>) -> bool {
+        if done.count_ones() as usize == evs.len() {
+            return true;
+        }
+        if !memo.insert((done, state.clone())) {
+            return false;
+        }
+        // an op may go next if no other pending op responded before it was invoked
+        let min_resp = evs.iter().enumerate().filter(|(i, _)| done & (1 << i) == 0).map(|(_, e)| e.resp).min().unwrap();
+        for (i, e) in evs.iter().enumerate() {
+            if done & (1 << i) != 0 || e.inv > min_resp {
+                continue;
+            }
+            if let Some(s2) = step(state, e) {
+                if rec(evs, done | (1 << i), &s2, memo) {
+                    return true;
+                }
+            }
+        }
+        false
+    }
+    assert!(evs.len() <= 64);
+    rec(evs, 0, init, &mut HashSet::new())
+}
+
+fn key_of(op: &Op) -> Option<u8> {
+    match op {
+        Op::Put(k) | Op::Get(k) | Op::Delete(k) | Op::Exists(k) => Some(*k),
+        Op::Scan => None,
+    }
+}
+
+fn check_history(evs: &[Ev], keys: u8, ctx: &mut CaseCtx, class: &str) -> Result<(), Fail> {
+    // direct corollaries first, for better messages
+    let written: BTreeSet<u32> = evs.iter().filter(|e| matches!(e.op, Op::Put(_))).map(|e| e.tag).collect();
+    for e in evs {
+        match &e.res {
+            Res::Torn(why) => {
+                ctx.fail(format!("torn-read:{class}"), format!("thread {} get({:?}) returned a value no put wrote: {why}", e.thread, e.op))?;
+            },
+            Res::Value(Some(t)) if !written.contains(t) => {
+                ctx.fail(format!("read-of-unwritten-value:{class}"), format!("thread {} read tag {t} that no put wrote", e.thread))?;
+            },
+            _ => {},
+        }
+    }
+    if ctx.known_hit() {
+        return Ok(());
+    }
+    let init: State = vec![None; keys as usize];
+    let has_scan = evs.iter().any(|e| matches!(e.op, Op::Scan));
+    let ok = if has_scan {
+        linearizable(evs, &init)
+    } else {
+        (0..keys).all(|k| {
+            let sub: Vec<Ev> = evs.iter().filter(|e| key_of(&e.op) == Some(k)).cloned().collect();
+            linearizable(&sub, &init)
+        })
+    };
+    if !ok {
+        // diagnosis: does the history become explainable if a delete may report success although the
+        // key was already gone (check-then-remove is not atomic)?
+        let relaxed: Vec<Ev> = evs
+            .iter()
+            .map(|e| {
+                let mut e = e.clone();
+                if matches!(e.res, Res::DeleteOk(true)) {
+                    e.res = Res::DeleteAny;
+                }
+                e
+            })
+            .collect();
+        let ok_relaxed = if has_scan {
+            linearizable(&relaxed, &init)
+        } else {
+            (0..keys).all(|k| {
+                let sub: Vec<Ev> = relaxed.iter().filter(|e| key_of(&e.op) == Some(k)).cloned().collect();
+                linearizable(&sub, &init)
+            })
+        };
+        if ok_relaxed {
+            return ctx.fail(
+                format!("delete-success-reported-twice:{class}"),
+                "two overlapping delete calls on one key both returned Ok although only one of them can have removed it (the existence check and the removal are not atomic)",
+            );
+        }
+        let mut sorted: Vec<&Ev> = evs.iter().collect();
+        sorted.sort_by_key(|e| e.inv);
+        let text: Vec<String> = sorted.iter().map(|e| format!("t{} {:?}#{} [{}..{}] -> {:?}", e.thread, e.op, e.tag, e.inv, e.resp, e.res)).collect();
+        let kinds: BTreeSet<&str> = evs
+            .iter()
+            .map(|e| match e.op {
+                Op::Put(_) => "put",
+                Op::Get(_) => "get",
+                Op::Delete(_) => "delete",
+                Op::Exists(_) => "exists",
+                Op::Scan => "scan",
+            })
+            .collect();
+        ctx.fail(
+            format!("not-linearizable:{class}:{}", kinds.into_iter().collect::<Vec<_>>().join("+")),
+            format!("no sequential order of these operations explains their results: {}", text.join(" | ")),
+        )?;
+    }
+    Ok(())
+}
+
+fn overlapping_write(evs: &[Ev]) -> bool {
+    for (i, a) in evs.iter().enumerate() {
+        for b in &evs[i + 1..] {
+            let same_key = key_of(&a.op).is_some() && key_of(&a.op) == key_of(&b.op);
+            let overlap = a.inv < b.resp && b.inv < a.resp;
+            let write = matches!(a.op, Op::Put(_) | Op::Delete(_)) || matches!(b.op, Op::Put(_) | Op::Delete(_));
+            if same_key && overlap && write && a.thread != b.thread {
+                return true;
+            }
+        }
+    }
+    false
+}
+
+// ------------------------------------------------------------------ running scripts
+
+struct Run {
+    store: TensorStore,
+    clock: AtomicU64,
+    tags: AtomicU64,
+    log: Mutex<Vec<Ev>>,
+}
+
+fn do_op(r: &Run, thread: usize, class: u8, keys: u8, op: &Op, durable: bool) {
+    let tag = r.tags.fetch_add(1, Ordering::SeqCst) as u32 + 1;
+    let inv = r.clock.fetch_add(1, Ordering::SeqCst);
+    let res = match op {
+        Op::Put(k) => {
+            let key = key_name(class, *k);
+            let v = value(&key, tag);
+            let ok = if durable { r.store.put_durable(key, v).is_ok() } else { r.store.put(key, v).is_ok() };
+            if ok { Res::Done } else { Res::Torn("put failed".into()) }
+        },
+        Op::Get(k) => {
+            let key = key_name(class, *k);
+            match r.store.get(&key) {
+                Ok(d) => match read_tag(&key, &d) {
+                    Ok(t) => Res::Value(Some(t)),
+                    Err(why) => Res::Torn(why),
+                },
+                Err(_) => Res::Value(None),
+            }
+        },
+        Op::Delete(k) => {
+            let key = key_name(class, *k);
+            let ok = if durable { r.store.delete_durable(&key).is_ok() } else { r.store.delete(&key).is_ok() };
+            Res::DeleteOk(ok)
+        },
+        Op::Exists(k) => Res::Bool(r.store.exists(&key_name(class, *k))),
+        Op::Scan => {
+            let prefix = { let c = CLASSES[class as usize % CLASSES.len()]; if c == "plain" { "k".to_string() } else { c.to_string() } };
+            let found: BTreeSet<String> = r.store.scan(&prefix).into_iter().collect();
+            Res::Keys((0..keys).filter(|k| found.contains(&key_name(class, *k))).collect())
+        },
+    };
+    let resp = r.clock.fetch_add(1, Ordering::SeqCst);
+    r.log.lock().unwrap().push(Ev { thread, op: op.clone(), tag, inv, resp, res });
+}
+
+fn lin_check(c: &Case, ctx: &mut CaseCtx) -> Result<(), Fail> {
+    let class = CLASSES[c.class as usize % CLASSES.len()];
+    let run = Arc::new(Run { store: TensorStore::new(), clock: AtomicU64::new(0), tags: AtomicU64::new(0), log: Mutex::new(Vec::new()) });
+    let mut scripts: Vec<Box<dyn FnOnce() + Send>> = Vec::new();
+    for (ti, script) in c.scripts.iter().enumerate() {
+        let (run, script, class_i, keys) = (run.clone(), script.clone(), c.class, c.keys);
+        scripts.push(Box::new(move || {
+            for op in &script {
+                sched::op_boundary();
+                do_op(&run, ti, class_i, keys, op, false);
+            }
+        }));
+    }
+    let report = sched::run(scripts, &c.schedule, &["store.emb.put", "store.emb.get", "store.emb.del", "store.delete.checked"], Duration::from_millis(60));
+    if let Some((t, m)) = report.panics.first() {
+        ctx.fail("panic-in-thread", format!("thread {t} panicked: {m}"))?;
+    }
+    let evs = run.log.lock().unwrap().clone();
+    ctx.label(format!("class {class}"));
+    if evs.iter().any(|e| matches!(e.op, Op::Scan)) {
+        ctx.label("history with scan");
+    }
+    if overlapping_write(&evs) {
+        ctx.label("overlapping operations on one key, one a write");
+        ctx.set_nontrivial();
+    }
+    if evs.len() > 40 {
+        return Ok(());
+    }
+    check_history(&evs, c.keys, ctx, class)
+}
+
+// ------------------------------------------------------------------ durable order
+
+fn observe(store: &TensorStore) -> BTreeMap<String, Vec<(String, Vec<u8>)>> {
+    let mut st = BTreeMap::new();
+    let mut keys = store.scan("");
+    keys.sort();
+    for k in keys {
+        if k.starts_with("_cache:") {
+            continue;
+        }
+        if let Ok(d) = store.get(&k) {
+            let mut f: Vec<(String, Vec<u8>)> = d.fields_iter().map(|(n, v)| (n.clone(), bitcode::serialize(v).unwrap_or_default())).collect();
+            f.sort();
+            st.insert(k, f);
+        }
+    }
+    st
+}
+
+fn durable_check(c: &Case, ctx: &mut CaseCtx) -> Result<(), Fail> {
+    let class_i = if c.class as usize % CLASSES.len() == 4 { 0 } else { c.class }; // cache keys are not durable
+    let class = CLASSES[class_i as usize % CLASSES.len()];
+    let dir = nv_engine::scratch::Dir::new("c11");
+    let wal = dir.join("store.wal");
+    let store = TensorStore::open_durable(&wal, WalConfig::default()).map_err(|e| Fail::new("harness", e.to_string()))?;
+    let run = Arc::new(Run { store, clock: AtomicU64::new(0), tags: AtomicU64::new(0), log: Mutex::new(Vec::new()) });
+    let mut scripts: Vec<Box<dyn FnOnce() + Send>> = Vec::new();
+    for (ti, script) in c.scripts.iter().enumerate() {
+        let (run, script, keys) = (run.clone(), script.clone(), c.keys);
+        scripts.push(Box::new(move || {
+            for op in &script {
+                sched::op_boundary();
+                do_op(&run, ti, class_i, keys, op, true);
+            }
+        }));
+    }
+    let report = sched::run(scripts, &c.schedule, &["store.durable.logged", "store.durable.unlocked"], Duration::from_millis(60));
+    if let Some((t, m)) = report.panics.first() {
+        ctx.fail("panic-in-thread", format!("thread {t} panicked: {m}"))?;
+    }
+    ctx.label(format!("class {class}"));
+    let evs = run.log.lock().unwrap().clone();
+    if overlapping_write(&evs) {
+        ctx.label("overlapping durable writes to one key");
+        ctx.set_nontrivial();
+    }
+    let mem = observe(&run.store);
+    let copy = dir.join("copy.wal");
+    std::fs::copy(&wal, &copy).map_err(|e| Fail::new("harness", e.to_string()))?;
+    let rec = TensorStore::recover(&copy, &WalConfig::default(), None).map_err(|e| Fail::new("recover-failed", format!("recover of a cleanly written log failed: {e}")))?;
+    let disk = observe(&rec);
+    if mem != disk {
+        let k = mem.keys().chain(disk.keys()).find(|k| mem.get(*k) != disk.get(*k)).cloned().unwrap_or_default();
+        let tag = |s: &BTreeMap<String, Vec<(String, Vec<u8>)>>| s.get(&k).map(|_| "present").unwrap_or("absent");
+        ctx.fail(
+            format!("durable-order-differs:{class}"),
+            format!("after all threads finished, key {k:?} is {} in memory and {} after recovering from the log (or holds a different write): the log order is not the order in which the writes took effect", tag(&mem), tag(&disk)),
+        )?;
+    }
+    Ok(())
+}
+
+// ------------------------------------------------------------------ stress
+
+fn stress_part() -> CustomPart {
+    CustomPart {
+        name: "stress",
+        run: Box::new(|cfg, findings, stats| {
+            let rounds = cfg.cases(40, 2000);
+            for r in 0..rounds {
+                let class = (r % 5) as u8;
+                let threads = 2 + (r as usize / 5) % 7;
+                let run = Arc::new(Run { store: TensorStore::new(), clock: AtomicU64::new(0), tags: AtomicU64::new(0), log: Mutex::new(Vec::new()) });
+                let barrier = Arc::new(std::sync::Barrier::new(threads));
+                let hs: Vec<_> = (0..threads)
+                    .map(|t| {
+                        let (run, barrier) = (run.clone(), barrier.clone());
+                        std::thread::spawn(move || {
+                            barrier.wait();
+                            for k in 0..4usize {
+                                // deterministic script: writers and readers alternate on one key
+                                let op = match (t + k) % 4 {
+                                    0 => Op::Put(0),
+                                    1 => Op::Get(0),
+                                    2 => Op::Put(0),
+                                    _ => if t % 3 == 0 { Op::Delete(0) } else { Op::Get(0) },
+                                };
+                                do_op(&run, t, class, 1, &op, false);
+                            }
+                        })
+                    })
+                    .collect();
+                for h in hs {
+                    let _ = h.join();
+                }
+                let evs = run.log.lock().unwrap().clone();
+                stats.evaluations += 1;
+                if overlapping_write(&evs) {
+                    stats.nontrivial.insert(nv_engine::fnv64(format!("{r}").as_bytes()));
+                }
+                let mut ctx = CaseCtx::new(findings, false);
+                let res = check_history(&evs, 1, &mut ctx, CLASSES[class as usize]);
+                if ctx.known_hit() {
+                    stats.excluded("known (see other parts)");
+                }
+                if stats.samples.is_empty() {
+                    stats.sample(serde_json::json!({"threads": threads, "class": CLASSES[class as usize], "ops": evs.len()}));
+                }
+                if let Err(f) = res {
+                    let case = serde_json::json!({"history": format!("{evs:?}")});
+                    let path = nv_engine::runner::write_replay(cfg, "stress", &f, &case);
+                    return Some(Violation { part: "stress".into(), sig: f.sig, msg: f.msg, replay: path });
+                }
+            }
+            None
+        }),
+        replay: Box::new(|_case, _f, _s| Err(Fail::new("stress-history", "recorded real-thread history (see msg in the replay file); not re-executable"))),
+    }
+}
+
+fn main() {
+    main_for(PropDef {
+        id: "C11",
+        level: "exploration",
+        rule: "lin: 2..5 (8) scripted threads of 1..5 put/get/delete/exists/scan ops on 1..3 contended keys of one key class (plain, emb: with a 384-dim vector whose every component and a sibling scalar carry the writer's tag, node:, table:, _cache:), every written value unique, plus a generated schedule; non-trivial = two operations on one key overlap in time and one is a write. durable: the same with put_durable/delete_durable and the store.durable.logged yield point; non-trivial = two overlapping durable writes to one key. stress: real threads. distinct = distinct generated case",
+        assumptions: vec![
+            "the scheduler owns the interleaving at the store.emb.* / store.durable.logged hooks and at operation boundaries only; other windows are reached only by the probabilistic stress part",
+            "embedding-class values always carry an _embedding vector (overwriting an embedding key with a value that has none keeps the old vector visible - a sequential quirk outside this property)",
+            "histories longer than 40 operations are not checked (search bound)",
+            "cache-class keys are excluded from the durable part",
+        ],
+        parts: vec![
+            PropPart::new("lin", 6000, 300_000, |t| case_strategy(t, true), lin_check).shrink_iters(600).boxed(),
+            PropPart::new("durable", 1500, 60_000, |t| case_strategy(t, false), durable_check).shrink_iters(300).boxed(),
+            Box::new(stress_part()),
+        ],
+        children: vec![],
+    });
+}
